@@ -214,6 +214,26 @@ def run_property(mod, tier, seed, replay=None):
                 known_hits.setdefault(v.mechanism, []).append((c, v))
             else:
                 hard.append((c, v))
+    # second oracle on the same workload: the tree compiled with AddressSanitizer + UBSan (thorough tier / VERIF_ASAN=1)
+    san_cov = {}
+    if getattr(mod, "SANITIZE", None) and not replay and (tier == "thorough" or os.environ.get("VERIF_ASAN") == "1"):
+        try:
+            sexe = ensure_build(mod.HARNESS, mod.SANITIZE)
+            sub = cases[: min(len(cases), int(os.environ.get("VERIF_ASAN_CASES", "800")))]
+            env = {"ASAN_OPTIONS": "detect_leaks=0:halt_on_error=1:abort_on_error=0:exitcode=99:allocator_may_return_null=1",
+                   "UBSAN_OPTIONS": "print_stacktrace=1:halt_on_error=1:exitcode=98"}
+            straces, scrashes = run_cases(sexe, sub, f"{prop}.{tier}.{seed}.san", getattr(mod, "BATCH", 25), workers,
+                                          getattr(mod, "TIMEOUT", 300) * 4, env_extra=env)
+            reports = 0
+            for name, rc, err in scrashes:
+                sanit = ("AddressSanitizer" in err) or ("runtime error:" in err) or rc in (98, 99)
+                what = (f"sanitizer report (rc={rc}) under the {mod.SANITIZE} build while running this case: " + err[-900:]) if sanit \
+                    else f"harness process died (rc={rc}) under the {mod.SANITIZE} build while running this case"
+                hard.append((by_name[name], Violation(what, "sanitizer-report" if sanit else "process-crash", {"stderr": err[-3000:]})))
+                reports += 1
+            san_cov = {"flavour": mod.SANITIZE, "cases_run": len(straces) + len(scrashes), "reports": reports}
+        except Inconclusive as e:
+            inconc.append(str(e))
     unit_cov = {}
     if hasattr(mod, "unit_phase") and not replay:
         try:
@@ -254,6 +274,8 @@ def run_property(mod, tier, seed, replay=None):
     }
     if unit_cov:
         coverage["unit_phase"] = unit_cov
+    if san_cov:
+        coverage["sanitizer_pass"] = san_cov
     if hasattr(mod, "extra_coverage"):
         coverage.update(mod.extra_coverage())
     if not replay:
